@@ -22,6 +22,7 @@ type c09Case struct {
 	Prefix  []int `json:"prefix"`          // first documents of the history
 	Depth   int   `json:"depth"`           // total history length explored below this prefix
 	Exact   bool  `json:"exact,omitempty"` // run exactly the history in Prefix (size-threshold histories with the huge document)
+	Churn   int   `json:"churn,omitempty"` // churn history: profile 0 by text and compiled, then Churn other distinct profile texts, then profile 0 again
 	Conf    bool  `json:"conf,omitempty"`  // history letters are (document, configuration) pairs: letter = 4*docIndex + confIndex over c09ConfDocs x c09Confs
 }
 
@@ -200,7 +201,7 @@ func c09Docs() []string {
 func init() {
 	Register(Meta{
 		ID: "C09", Level: "model_checking", HangIsViolation: true,
-		Rule:        "states = (profile, history) for 5 profiles and every history of length <=K (3 quick, 4 thorough) over a 9-document alphabet (conforming/violating for the profile at hand, nested sub-results, lexical locations, empty graph, two documents that make the call fail, a 128-node document, an AMF-compact document); each maximal history is executed on a freshly compiled query and every step is compared byte-for-byte with (1) a fresh pkg.ValidateWithConfiguration of the profile text on that document and (2) the report the same compiled query gave for that document from the initial state; error-ness must agree. Configuration histories: for 2 profiles, every sequence of 3 letters over {violating, conforming, lexical document} x {default, custom schema IRIs, no dateCreated, another clock} on one compiled query, each step compared with the report a FRESH PROCESS gives for the profile text, that document and that configuration. States are not merged (the compiled query exposes no state).",
+		Rule:        "states = (profile, history) for 5 profiles and every history of length <=K (3 quick, 4 thorough) over a 9-document alphabet (conforming/violating for the profile at hand, nested sub-results, lexical locations, empty graph, two documents that make the call fail, a 128-node document, an AMF-compact document); each maximal history is executed on a freshly compiled query and every step is compared byte-for-byte with (1) a fresh pkg.ValidateWithConfiguration of the profile text on that document and (2) the report the same compiled query gave for that document from the initial state; error-ness must agree. Configuration histories: for 2 profiles, every sequence of 3 letters over {violating, conforming, lexical document} x {default, custom schema IRIs, no dateCreated, another clock} on one compiled query, each step compared with the report a FRESH PROCESS gives for the profile text, that document and that configuration. Churn histories: one profile used by text and compiled, then n other distinct profile texts (n on both sides of every power of two up to 128; thorough 256 and 1025), then the first profile again by text, by the old compiled query and re-compiled. States are not merged (the compiled query exposes no state).",
 		Assumptions: []string{"fixed clock through the repository's ValidationConfiguration seam"},
 	}, c09Gen, c09Run)
 }
@@ -229,6 +230,15 @@ func c09Gen(tier string, emit func(c09Case)) {
 		for a := 0; a < 12; a++ {
 			emit(c09Case{Profile: p, Prefix: []int{a}, Depth: 3, Conf: true})
 		}
+	}
+	// churn: n other distinct profile texts between two uses of one profile, n around every power of two up to 256
+	for _, n := range []int{1, 2, 3, 4, 5, 7, 8, 9, 15, 16, 17, 31, 32, 33, 63, 64, 65, 127, 128, 129, 255, 256, 257} {
+		if tier == "thorough" || n <= 129 {
+			emit(c09Case{Churn: n})
+		}
+	}
+	if tier == "thorough" {
+		emit(c09Case{Churn: 1025})
 	}
 	// size threshold: a report above 1 MiB somewhere in the history (profiles whose report on it is that large)
 	for _, p := range []int{0} {
@@ -271,7 +281,74 @@ func c09FreshRefs(c *Ctx, p int) []c09Ref {
 	return refs
 }
 
+// c09RunChurn: many OTHER profiles are compiled between two uses of one profile. Sizes sit on both sides of every
+// power of two up to 256 (the capacities a bounded memo would plausibly have).
+func c09RunChurn(c *Ctx, cs c09Case) {
+	P := c09Profiles()[0]
+	docs := c09Docs()
+	refs := c09FreshRefs(c, 0)
+	variant := func(i int) string {
+		return strings.Replace(P, "profile: seed plain", fmt.Sprintf("profile: churn %d of %d", i, cs.Churn), 1)
+	}
+	expectVariant := func(i int) string {
+		return strings.Replace(refs[0].report, "seed plain", fmt.Sprintf("churn %d of %d", i, cs.Churn), -1)
+	}
+	if variant(1) == P || !strings.Contains(refs[0].report, "seed plain") {
+		panic("harness: C09 churn variants are not distinct from the base profile")
+	}
+	bad := func(what string, ref, got string) {
+		c.Violate("C09 "+what+" after other profiles were compiled in between", fmt.Sprintf("churn of %d distinct profile texts\n%s", cs.Churn, firstDiff(ref, got)), nil)
+	}
+	q0, cr := Compile(P)
+	if q0 == nil {
+		c.Violate("C09 profile does not compile: "+firstLine(cr.ErrString()), P, nil)
+		return
+	}
+	if r := Validate(P, docs[0]); r.Report != refs[0].report {
+		bad("report of the profile text differs from a fresh validation (before the churn)", refs[0].report, r.Report)
+	}
+	for i := 1; i <= cs.Churn; i++ {
+		r := Validate(variant(i), docs[0])
+		c.Eval(1)
+		if r.Report != expectVariant(i) {
+			bad(fmt.Sprintf("report of another profile (variant %d)", i), expectVariant(i), r.Report)
+			break
+		}
+	}
+	for _, d := range []int{0, 4} {
+		if r := Validate(P, docs[d]); r.Report != refs[d].report {
+			bad("report of the profile text differs from a fresh validation", refs[d].report, r.Report)
+		}
+		if r := ValidateCompiled(q0, docs[d]); r.Report != refs[d].report {
+			bad("report of the query compiled earlier differs from a fresh validation", refs[d].report, r.Report)
+		}
+		if q1, _ := Compile(P); q1 != nil {
+			if r := ValidateCompiled(q1, docs[d]); r.Report != refs[d].report {
+				bad("report of the re-compiled profile differs from a fresh validation", refs[d].report, r.Report)
+			}
+		}
+		c.Eval(3)
+	}
+	// the first, a middle and the last of the other profiles are still themselves
+	for _, i := range []int{1, (cs.Churn + 1) / 2, cs.Churn} {
+		if i >= 1 {
+			if r := Validate(variant(i), docs[0]); r.Report != expectVariant(i) {
+				bad(fmt.Sprintf("report of another profile (variant %d, revisited)", i), expectVariant(i), r.Report)
+			}
+		}
+	}
+	c.Count("states", int64(cs.Churn)+8)
+	c.Count("transitions", int64(cs.Churn)+8)
+	c.Count("traces_validated_against_impl", int64(cs.Churn)+8)
+	c.Outcome("churn")
+	c.Nontrivial(fmt.Sprintf("churn/%d", cs.Churn))
+}
+
 func c09Run(c *Ctx, cs c09Case) {
+	if cs.Churn > 0 {
+		c09RunChurn(c, cs)
+		return
+	}
 	if cs.Conf {
 		c09RunConf(c, cs)
 		return
